@@ -356,3 +356,126 @@ Definition check_ice (c : N * N * N * bool * N * list iop * list obs) : bool :=
   | Some w => list_beq obs_eqb (ice_run block ops w) seen
   | None => false
   end.
+
+(* ------------------------------------------------------------------ PatchedIceCastClient._download_stream *)
+
+(* The producer side in detail: how the body of the HTTP response is read.
+
+   The body is a byte string in which every byte carries a NAME: an audio byte is named by
+   its offset in the audio stream (0, 1, 2, ...), an ICY length byte with value v is named
+   1000+v, the i-th byte of a metadata block 2000+i (audio streams in this model are shorter
+   than 1000 bytes).  [name_value] is the value of the byte the harness puts on the wire; the
+   code inspects a value in one place only (`16 * self._readall(result, 1)[0]`).
+
+   raw.read(n) returns min(n, what is left of the body, cap) bytes; the caps are scripted
+   per call (short reads, at least one byte unless the body has ended); when the script is
+   used up reads are exact. *)
+Definition name_value (n : N) : N :=
+  if n <? 1000 then (16 + n) mod 256 else if n <? 2000 then n - 1000 else 240 + (n - 2000).
+
+Fixpoint dfirst (d : data) : N :=
+  match d with [] => 0 | (o, l) :: t => if l =? 0 then dfirst t else o end.
+
+Definition cap_amount (n : N) (cap : option N) (avail : N) : N :=
+  let m := N.min n avail in
+  match cap with None => m | Some c => N.min m (N.max 1 c) end.
+
+(* _readall(fileobject, size):
+       buffer = b""
+       while len(buffer) < size: buffer += fileobject.read(size)     # asks for `size` again
+       return buffer
+   RSpin: the body has ended and the loop reads b"" for ever. *)
+Inductive rres := ROk (got rest : data) (caps : list (option N)) | RSpin.
+
+Fixpoint readall (size : N) (acc body : data) (caps : list (option N)) : rres :=
+  match caps with
+  | c :: t =>
+      if size <=? dlen acc then ROk acc body caps
+      else if dlen body =? 0 then RSpin
+      else let k := cap_amount size c (dlen body) in
+           readall size (acc ++ dtake k body) (ddrop k body) t
+  | [] =>
+      if size <=? dlen acc then ROk acc body []
+      else let k := N.min size (dlen body) in
+           if size <=? dlen acc + k then ROk (acc ++ dtake k body) (ddrop k body) [] else RSpin
+  end.
+
+Record ist := mki {
+  i_buf : sbuf;
+  i_body : data;                 (* what is left of the HTTP body *)
+  i_caps : list (option N);      (* script of short reads *)
+  i_taken : N;                   (* bytes read from the body so far *)
+  i_stop : bool;                 (* _stop_stream *)
+  i_spin : bool                  (* the download loop is stuck in _readall for ever *)
+}.
+
+Definition ist_buf (s : ist) (b : sbuf) : ist :=
+  mki b (i_body s) (i_caps s) (i_taken s) (i_stop s) (i_spin s).
+
+(* one pass of `while not self._stop_stream:` once the block fits; meta = icy-metaint or 0 *)
+Definition ice2_download (block meta : N) (s : ist) : ist :=
+  if i_stop s || i_spin s then s
+  else if negb (buf_fits block (i_buf s)) then s
+  else
+    let spin := mki (i_buf s) [] [] (i_taken s + dlen (i_body s)) false true in
+    if meta =? 0 then
+      (* chunk = result.read(BLOCK_SIZE); if chunk == b"": stop; add(chunk) *)
+      let k := cap_amount block (hd None (i_caps s)) (dlen (i_body s)) in
+      mki (snd (buf_add (dtake k (i_body s)) (i_buf s))) (ddrop k (i_body s)) (tl (i_caps s))
+          (i_taken s + k) (k =? 0) false
+    else
+      (* chunk = _readall(meta); meta_size = 16 * _readall(1)[0]; _readall(meta_size); add(chunk) *)
+      match readall meta [] (i_body s) (i_caps s) with
+      | RSpin => spin
+      | ROk chunk body1 caps1 =>
+          match readall 1 [] body1 caps1 with
+          | RSpin => spin
+          | ROk lb body2 caps2 =>
+              match readall (16 * name_value (dfirst lb)) [] body2 caps2 with
+              | RSpin => spin
+              | ROk _ body3 caps3 =>
+                  mki (snd (buf_add chunk (i_buf s))) body3 caps3
+                      (i_taken s + (dlen (i_body s) - dlen body3)) false false
+              end
+          end
+      end.
+
+Definition ice2_step (block meta : N) (o : iop) (s : ist) : res * ist :=
+  match o with
+  | IDownload _ => (RNone, ice2_download block meta s)
+  | IRead n => let '(d, b') := buf_get n (i_buf s) in (RData d, ist_buf s b')
+  | ISeek p => let '(r, b') := buf_seek p (i_buf s) in (RBool r, ist_buf s b')
+  | IProt v =>
+      match buf_protect v (i_buf s) with
+      | Some b' => (RNone, ist_buf s b')
+      | None => (RRaise, s)
+      end
+  end.
+
+Record obs2 := mkobs2 {
+  p_res : res; p_pos : N; p_size : N; p_rem : N; p_taken : N; p_stop : bool; p_spin : bool
+}.
+
+Definition observe2 (r : res) (s : ist) : obs2 :=
+  mkobs2 r (b_pos (i_buf s)) (buf_size (i_buf s)) (buf_remaining (i_buf s)) (i_taken s) (i_stop s) (i_spin s).
+
+Fixpoint ice2_run (block meta : N) (ops : list iop) (s : ist) : list obs2 :=
+  match ops with
+  | [] => []
+  | o :: t => let '(r, s') := ice2_step block meta o s in observe2 r s' :: ice2_run block meta t s'
+  end.
+
+Definition obs2_eqb (a b : obs2) : bool :=
+  res_eqb (p_res a) (p_res b) && (p_pos a =? p_pos b) && (p_size a =? p_size b)
+  && (p_rem a =? p_rem b) && (p_taken a =? p_taken b) && Bool.eqb (p_stop a) (p_stop b)
+  && Bool.eqb (p_spin a) (p_spin b).
+
+(* (BLOCK_SIZE, icy-metaint or 0, buffer size, headroom, protected, body, short-read script,
+   operations, observations) *)
+Definition check_ice2
+  (c : N * N * N * N * bool * data * list (option N) * list iop * list obs2) : bool :=
+  let '(block, meta, size, head, prot, body, caps, ops, seen) := c in
+  match buf_new size head prot with
+  | Some b => list_beq obs2_eqb (ice2_run block meta ops (mki b body caps 0 false false)) seen
+  | None => false
+  end.
